@@ -93,42 +93,8 @@ type histParams struct {
 	Params verifgen.Params
 }
 
-// paramsFor derives the generator parameters of a case from its seed and the
-// property the run is about (a pure function).
 func paramsFor(prop string, seed int64, tier string) verifgen.Params {
-	r := seed
-	if r < 0 {
-		r = -r
-	}
-	p := verifgen.Params{
-		Len:       60 + int(r%141),
-		Commands:  verifCommands(),
-		Garbage:   0.05,
-		Services:  r%3 != 0,
-		Captcha:   r%4 == 1,
-		Limits:    r%5 == 2,
-		NoConfig:  r%17 == 3,
-		IndexGaps: r%2 == 0,
-		MoD:       r%7 == 0,
-		Deletes:   true,
-	}
-	switch prop {
-	case "C06":
-		p.Garbage = 0.25
-		p.WildServiceNicks = r%2 == 0
-		p.Limits = r%3 == 0
-	case "C13":
-		p.Captcha = r%2 == 1
-		p.Garbage = 0.01
-	case "C14":
-		p.Limits = r%2 == 0
-	case "C15":
-		p.Garbage = 0.3
-	}
-	if tier == "thorough" && r%50 == 0 {
-		p.Len = 3000
-	}
-	return p
+	return verifgen.ParamsFor(prop, seed, tier, verifCommands())
 }
 
 type verifEnv struct {
@@ -178,7 +144,7 @@ func (ve *verifEnv) runHistory(seed int64, p verifgen.Params, hist []verifgen.En
 		ve.rep.Obs("cmd."+cmdBucket(e.Cmd)+"."+e.Role, 1)
 		// snapshot round trip at seeded points: the history continues on an instance
 		// that was serialized and loaded (what every restarted or lagging node runs on)
-		if (uint64(seed)+uint64(idx)*2654435761)%41 == 0 {
+		if (uint64(seed)+uint64(idx)*2654435761)%41 == 0 || e.RT {
 			data, err := srv.Marshal(e.Id)
 			if err == nil {
 				cp := verifNewServer()
